@@ -36,6 +36,8 @@ type identity struct {
 var identities = map[string]*identity{}
 var expiredChain Chain // leaf no longer valid (key EC-256/0)
 var selfSigned *identity
+var deepChain Chain   // [leaf, intermediate, root] for key EC-256/0
+var foreignCert *Cert // a valid CA certificate of another hierarchy
 
 func loadIdentities(now time.Time) {
 	nb, na := now.Add(-48*time.Hour), now.Add(48*time.Hour)
@@ -61,6 +63,10 @@ func loadIdentities(now time.Time) {
 	k0 := identities["EC-256/0"]
 	old := Mint(CertSpec{Subject: Name("c18 expired leaf"), NotBefore: nb.Add(-300 * 24 * time.Hour), NotAfter: nb.Add(-200 * 24 * time.Hour), Leaf: true, Key: k0.key}, root)
 	expiredChain = Chain{old, root}
+	inter := Mint(CertSpec{Subject: Name("c18 intermediate"), NotBefore: nb, NotAfter: na, IsCA: true}, root)
+	dleaf := Mint(CertSpec{Subject: Name("c18 deep leaf"), NotBefore: nb, NotAfter: na, Leaf: true, Key: k0.key}, inter)
+	deepChain = Chain{dleaf, inter, root}
+	foreignCert = Mint(CertSpec{Subject: Name("c18 foreign root"), NotBefore: nb, NotAfter: na, IsCA: true}, nil)
 	ss := Mint(CertSpec{Subject: Name("c18 self-signed leaf"), NotBefore: nb, NotAfter: na, Leaf: true, Key: identities["EC-256/1"].key}, nil)
 	selfSigned = &identity{spec: "EC-256", variant: 1, key: identities["EC-256/1"].key, chain: Chain{ss}, alg: identities["EC-256/1"].alg}
 }
